@@ -10,6 +10,8 @@ for f in sorted(os.listdir(kd)):
     if f.endswith(".json"):
         kf += json.load(open(os.path.join(kd, f)))
 json.dump({"comment": "known: genuine defect recorded, its trigger class is excluded from generation and the probe prints KNOWN-FINDING; fixed: repaired by the named fix: commit in /repo, suppresses nothing (the probe is an ordinary assertion)", "findings": kf}, open(os.path.join(V, "known_findings.json"), "w"), indent=1)
+ready = set(open(os.path.join(V, "tools", "ready.txt")).read().split())
+conf = {k: v for k, v in conf.items() if k in ready}
 allp = [json.loads(l)["id"] for l in open(os.path.join(V, "properties.jsonl"))]
 try:
     hooks = subprocess.run(["git", "-C", "/repo", "log", "--format=%H %s", "--grep=^verif hook"], capture_output=True, text=True).stdout.split("\n")
